@@ -27,7 +27,7 @@ func (g *gen) stmtExtra() {
 		at = g.sb.Len()
 		return v
 	}
-	k := g.pick("extra", 60)
+	k := g.pick("extra", 63)
 	if k == 22 || k == 23 || k == 37 || k == 40 || k == 46 || k >= 56 && k <= 59 {
 		if g.off["recover"] || g.rangeDepth > 0 && g.off["recover.in_range"] {
 			k = 0
@@ -790,6 +790,122 @@ func (g *gen) stmtExtra() {
 		g.line("\tprintln(\"end of function\")")
 		g.line("}()")
 		g.line("println(len(%s), len(%s))", x("zs"), x("zc"))
+	case 60, 61, 62:
+		// a range statement over one kind of container with one element type and one form of the
+		// iteration variables; the body assigns the element variable and the container
+		g.feat("range_matrix")
+		if !g.structs {
+			g.stmtPrint()
+			return
+		}
+		// (in a block of its own: the iteration variables have plain names)
+		g.line("{")
+		defer g.line("}")
+		et := g.oneOf("rmelem", []string{"int", "string", "S0", "[2]int", "interface{}", "float64"})
+		lit := map[string][3]string{
+			"int":         {e("int"), "2", "3"},
+			"string":      {e("string"), "\"b\"", "\"c\""},
+			"S0":          {"S0{A: " + e("int") + "}", "S0{A: 2, B: \"b\"}", "S0{A: 3}"},
+			"[2]int":      {"[2]int{" + e("int") + ", 1}", "[2]int{2, 2}", "[2]int{3, 3}"},
+			"interface{}": {"interface{}(" + e("int") + ")", "interface{}(\"b\")", "interface{}(nil)"},
+			"float64":     {e("float64"), "2.5", "3.5"},
+		}[et]
+		show := func(v string) string {
+			switch et {
+			case "S0":
+				return v + ".A, " + v + ".B"
+			case "[2]int":
+				return v + "[0], " + v + "[1]"
+			case "interface{}":
+				return v + " == nil"
+			}
+			return v
+		}
+		mod := map[string]string{"int": "v++", "string": "v += \"!\"", "S0": "v.A += 100", "[2]int": "v[1] = 100", "interface{}": "v = 0", "float64": "v *= 2"}[et]
+		kind := g.oneOf("rmkind", []string{"slice", "array", "arrayptr", "map", "chan"})
+		cv := x("rc")
+		switch kind {
+		case "slice":
+			g.line("%s := []%s{%s, %s, %s}", cv, et, lit[0], lit[1], lit[2])
+		case "array":
+			g.line("%s := [3]%s{%s, %s, %s}", cv, et, lit[0], lit[1], lit[2])
+		case "arrayptr":
+			g.line("%s := [3]%s{%s, %s, %s}", x("rb"), et, lit[0], lit[1], lit[2])
+			g.line("%s := &%s", cv, x("rb"))
+		case "map":
+			g.line("%s := map[int]%s{7: %s}", cv, et, lit[0])
+		case "chan":
+			g.line("%s := make(chan %s, 3)", cv, et)
+			g.line("%s <- %s", cv, lit[0])
+			g.line("%s <- %s", cv, lit[1])
+			g.line("close(%s)", cv)
+		}
+		set := ""
+		switch kind {
+		case "slice", "array", "arrayptr":
+			set = cv + "[2] = " + lit[1]
+		case "map":
+			set = cv + "[7] = " + lit[2]
+		}
+		form := g.pick("rmform", 4)
+		if kind == "chan" {
+			switch form {
+			case 0, 1:
+				g.line("for v := range %s {", cv)
+			case 2:
+				g.line("var v %s", et)
+				g.line("for v = range %s {", cv)
+			default:
+				g.line("n%s := 0", cv)
+				g.line("for range %s {", cv)
+				g.line("\tn%s++", cv)
+				g.line("}")
+				g.line("println(n%s)", cv)
+				return
+			}
+			g.line("\t%s", mod)
+			g.line("\tprintln(%s)", show("v"))
+			g.line("}")
+			g.line("println(len(%s))", cv)
+			return
+		}
+		switch form {
+		case 0:
+			g.line("for k, v := range %s {", cv)
+		case 1:
+			g.line("for _, v := range %s {", cv)
+		case 2:
+			g.line("var k int")
+			g.line("var v %s", et)
+			g.line("for k, v = range %s {", cv)
+		default:
+			g.line("for k := range %s {", cv)
+			if set != "" {
+				g.line("\t%s", set)
+			}
+			g.line("\tprintln(k)")
+			g.line("}")
+			g.line("println(len(%s))", cv)
+			return
+		}
+		if set != "" {
+			g.line("\t%s", set)
+		}
+		g.line("\t%s", mod)
+		if form == 1 {
+			g.line("\tprintln(%s)", show("v"))
+		} else {
+			g.line("\tprintln(k, %s)", show("v"))
+		}
+		g.line("}")
+		idx := "[0]"
+		if kind == "map" {
+			idx = "[7]"
+		}
+		g.line("println(%s, len(%s))", show(cv+idx), cv)
+		if form == 2 {
+			g.line("println(k, %s)", show("v"))
+		}
 	default:
 		g.feat("float_ops")
 		g.line("%s, %s := %s, %s", x("fx"), x("fy"), e("float64"), e("float64"))
